@@ -531,6 +531,9 @@ def freq_measure(repo, rep, rule):
 
 
 def run(repo, rep, tier):
+    rep.rule("R-C01-w1", "no direction bin width is derived from the extent max(dir) - min(dir) of the axis (a sector straddling north has extent ~360)")
+    from .round7b import extent_width
+    extent_width(repo, rep, "R-C01-w1")
     from .round7b import hygiene
     hygiene(repo, rep, "C01", ('wavespectra.specarray', 'wavespectra.core.xrstats', 'wavespectra.core.npstats', 'wavespectra.core.utils'), falsy=True)
     rep.rule("R-C01-12", "in the numpy-level statistics the axis of every reduction is a literal (the kernels get (freq, dir) arrays by contract), never derived from shapes")
